@@ -6,6 +6,7 @@ import (
 
 	"github.com/superfly/litefs/verifharness/core"
 	"github.com/superfly/litefs/verifharness/dbreplay"
+	"github.com/superfly/litefs/verifharness/faults"
 	"github.com/superfly/litefs/verifharness/repl"
 	"github.com/superfly/litefs/verifharness/t3"
 )
@@ -22,6 +23,8 @@ func main() {
 	}
 	dbreplay.Post = func() {
 		replicaRetention(rep, args.Seed)
+		// failure paths (spec/Faults.tla): the log stays one chain when a call of a commit / an apply / a snapshot fails
+		faults.Run(rep, args, faults.Select{Ops: []string{"rb_commit", "wal_commit", "import", "replica_apply", "replica_snapshot"}, Monitors: []string{"chain", "replica-chain"}})
 		t3.Stage(rep, args, map[string]bool{"C09": true})
 	}
 	// replicated applies, snapshots, restarts and drops: the cluster scripts with this property's monitors
